@@ -17,6 +17,7 @@ import (
 	"strings"
 	"unicode/utf8"
 
+	"github.com/goccmack/gocc/internal/ast"
 	"github.com/goccmack/gocc/internal/lexer/items"
 	"github.com/goccmack/gocc/internal/util"
 	"github.com/goccmack/gocc/internal/util/md"
@@ -49,6 +50,31 @@ func opAddRange(args []string) string {
 	set := items.NewDisjunctRangeSet()
 	for i := 0; i+1 < len(v); i += 2 {
 		set.AddRange(rune(v[i]), rune(v[i+1]))
+	}
+	out := []int{}
+	for _, r := range set.List() {
+		out = append(out, int(r.From), int(r.To))
+	}
+	return showInts(out)
+}
+
+// opAddNodes feeds literals / ranges through AddLexTNode (the path getSymbolClasses takes):
+// args: "l v" or "r lo hi" repeated
+func opAddNodes(args []string) string {
+	set := items.NewDisjunctRangeSet()
+	for i := 0; i < len(args); {
+		switch args[i] {
+		case "l":
+			v := ints(args[i+1 : i+2])
+			set.AddLexTNode(&ast.LexCharLit{Val: rune(v[0])})
+			i += 2
+		case "r":
+			v := ints(args[i+1 : i+3])
+			set.AddLexTNode(&ast.LexCharRange{From: &ast.LexCharLit{Val: rune(v[0])}, To: &ast.LexCharLit{Val: rune(v[1])}})
+			i += 3
+		default:
+			panic("bad node")
+		}
 	}
 	out := []int{}
 	for _, r := range set.List() {
@@ -136,6 +162,7 @@ func opDecodeRune(args []string) string {
 
 var ops = map[string]func([]string) string{
 	"addrange":   opAddRange,
+	"addnodes":   opAddNodes,
 	"loadmd":     opLoadMd,
 	"lit2rune":   opLit2Rune,
 	"decoderune": opDecodeRune,
